@@ -532,10 +532,9 @@ func runLocal(in json.RawMessage) core.Result {
 	} else {
 		res.Coq = fmt.Sprintf("mk_case %s %s %s %s", term, coqOptBytes(out, !panicked), core.CoqBool(wi.bom), core.CoqBool(wi.nolit))
 	}
-	switch {
-	case wi.bom:
-		res.Class = "leading_bom"
-	case wi.nolit:
+	// (a format that starts with U+FEFF was the class leading_bom until fixes/C09-5-leading-bom.diff; it is an
+	// ordinary input now: wi.bom is only a distribution tag and stays cross-checked with Coq's cls_bom)
+	if wi.nolit {
 		res.Class = "value_literal_unavailable"
 	}
 
@@ -548,7 +547,7 @@ func runLocal(in json.RawMessage) core.Result {
 		res.Tags = append(res.Tags, "malformed:invalid_utf8")
 	}
 	if wi.bom {
-		res.Tags = append(res.Tags, "malformed:leading_bom")
+		res.Tags = append(res.Tags, "format:leading_bom")
 	}
 	if wi.nolit {
 		res.Tags = append(res.Tags, "malformed:nil_value_arg")
